@@ -100,19 +100,27 @@ func bufsEqual(c *wgen.Case, a, b xrt.Buffers) bool {
 }
 
 // f2Shape returns the sorted set of compound-construct letters of an F2/F2L signature (b block, e if/else,
-// f for, i if, l loop, q else-if chain, s switch, w while), or "-" for a tree of leaves only.
+// f for, i if, l loop, q else-if chain, s switch, w while), prefixed by H when the tree contains a helper call
+// statement, or "-" for a tree of other leaves only.
 func f2Shape(sig string) string {
 	p := strings.SplitN(sig, "/", 3)
 	if len(p) < 3 {
 		return "-"
 	}
 	var have [26]bool
+	call := false
 	for _, ch := range p[2] {
 		if ch >= 'a' && ch <= 'z' {
 			have[ch-'a'] = true
 		}
+		if ch == 'H' {
+			call = true
+		}
 	}
 	out := ""
+	if call {
+		out = "H" // the tree contains a helper call statement
+	}
 	for i, h := range have {
 		if h {
 			out += string(rune('a' + i))
@@ -292,9 +300,9 @@ func runC13() int {
 	// pipeline) once (depth 1) on every tree of two reduced alphabets with a larger node budget, with
 	// function-local accumulators: stores to promotable locals under deeper nesting of if/else/return and
 	// of loop/break/continue
-	wide := []*wgen.Family{wgen.F2LMini(4, 1), wgen.F2LMini(4, 2)}
+	wide := []*wgen.Family{wgen.F2LMini(4, 1), wgen.F2LMini(4, 2), wgen.F2LMini(3, 4)}
 	if r.Thorough() {
-		wide = []*wgen.Family{wgen.F2LMini(5, 1), wgen.F2LMini(5, 2), wgen.F2L(4, true)}
+		wide = []*wgen.Family{wgen.F2LMini(5, 1), wgen.F2LMini(5, 2), wgen.F2LMini(4, 4), wgen.F2L(4, true)}
 	}
 	localPasses := map[string]bool{"InlineAll": true, "sroa": true, "mem2reg": true, "dce": true, "dxil-pipeline": true}
 	forEachProgram(r, wide, nil, func(p *prog) { c13ProgramOnly(r, p, 1, tot, localPasses) })
